@@ -288,6 +288,8 @@ impl<T: Iterator<Item = u8>> Tokenizer<T> {
     fn abstract_literal(&mut self, buf: &mut Latin1String) -> (TokenKind, Option<LexErr>) {
         let mut diag = None;
         self.integer(buf);
+        let colon_starts_based_literal = self.current == Some(b':')
+            && self.peek().is_some_and(|next| next.is_ascii_alphanumeric());
         match self.current {
             Some(b'.') => {
                 self.skip();
@@ -295,7 +297,9 @@ impl<T: Iterator<Item = u8>> Tokenizer<T> {
                 self.integer(buf);
                 self.opt_exponent(buf);
             }
-            Some(ch @ b'#' | ch @ b':') => {
+            // The replacement character ':' (LRM 15.10) only starts a based literal when
+            // an extended digit follows, otherwise it is a delimiter as in `range 0 to 1:= 1`
+            Some(ch @ b'#' | ch @ b':') if ch == b'#' || colon_starts_based_literal => {
                 self.skip();
                 buf.push(ch);
                 self.based_integer(buf);
